@@ -1,11 +1,14 @@
 import TracklibVerif.Lemmas.Raster
+import TracklibVerif.Lemmas.RasterSession
 import Mathlib.Data.Rat.Floor
 import Mathlib.Tactic.NormNum
 /-! # C19 — grid summarising conserves observations and aggregates per cell
 
-Property theorems only (helper lemmas: `Lemmas/Raster.lean`; model: `Model/Raster.lean`).
-`getCell`, `scatter`, `cellValue`, `aggregates` are the models of `Raster.getCell`,
-`Raster.addCollectionToRaster`, the `co_*` cell operators and `Raster.computeAggregates`.
+Property theorems only (helper lemmas: `Lemmas/Raster.lean`, `Lemmas/RasterSession.lean`; models: `Model/Raster.lean`,
+`Model/RasterSession.lean`). `getCell`, `scatter`, `cellValue`, `aggregates` are the models of `Raster.getCell`, the scatter
+loop of `Raster.addCollectionToRaster`, the `co_*` cell operators and the per-band loop of `Raster.computeAggregates`;
+`addBand`, `addColl`, `computeAll`, `run` those of the calls `addAFMap`, `addCollectionToRaster`, `computeAggregates` and of
+sequences of calls on one `Raster` object; `summarizeS` that of `summarize`.
 Scalars: any linearly ordered field with a floor function (`ℚ`, `ℝ`); `floor`/`ceil` are `Int.floor`/`Int.ceil`.
 A feature value `none` is NaN. `WF g` says the grid is the one the constructor builds on a bounding box
 `xmin ≤ xmax`, `ymin ≤ ymax` — zero width and zero height included: all observations on one vertical or horizontal
@@ -115,46 +118,319 @@ theorem aggregates_entry (noData : α) (op : Op) (c : Cells (Option α)) (i j : 
   unfold aggregates cellAt
   simp [hi, hj]
 
-/-- End to end. For EVERY non-empty collection — a north-south or east-west line of observations and a single
-observation included, whose extent has no width or no height —, positive resolution and margin ≥ 0, `summarize`
-does not fail: it builds a well-formed grid (at least one column and one row) covering every observation, and
-returns, per operator, `computeAggregates` of the cells `cells`, where the cell in line `i`, column `j` holds exactly
-the values of the observations that `getCell` locates there (so that T1, T2, T3 apply to the returned grids).
-Before bdf8515 this needed two different x and two different y among the observations. -/
-theorem summarize_spec (obs : List (α × α × Option α)) (rx ry margin noData : α) (ops : List Op)
-    (hrx : 0 < rx) (hry : 0 < ry) (hm : 0 ≤ margin) (hne : obs ≠ []) :
-    ∃ (g : Grid α) (cells : Cells (Option α)),
-      summarize Int.floor Int.ceil noData obs rx ry margin ops
-        = some (g, ops.map (fun op => aggregates noData op cells))
-      ∧ WF g
-      ∧ (∀ o ∈ obs, (g.xmin ≤ o.1 ∧ o.1 ≤ g.xmax) ∧ (g.ymin ≤ o.2.1 ∧ o.2.1 ≤ g.ymax))
-      ∧ Rect cells g.nrow.toNat g.ncol.toNat
-      ∧ ∀ i j, cellAt cells i j
-          = located (fun o : α × α × Option α => getCell Int.floor g o.1 o.2.1) (fun o => o.2.2) j i obs := by
-  have hxs : obs.map (fun o => o.1) ≠ [] := fun h => hne (List.map_eq_nil_iff.1 h)
-  have hys : obs.map (fun o => o.2.1) ≠ [] := fun h => hne (List.map_eq_nil_iff.1 h)
+/-- the grids written by `computeAggregates` on a raster whose no-data value is `nd` (`none` = `None`): entry (line `i`,
+column `j`) is the operator's value on that cell, and the raster's OWN no-data value when that value is NaN; hence a cell
+without a non-NaN value (no observation, or only NaN) holds 0 for count and sum and the raster's no-data value — whatever it is —
+for the four other operators. -/
+theorem aggregatesN_entry (nd : Option α) (op : Op) (c : Cells (Option α)) (i j : ℕ)
+    (hi : i < c.length) (hj : j < (c[i]'hi).length) :
+    ((aggregatesN nd op c)[i]?.bind (·[j]?))
+        = some (fillNaN nd (cellValue op (cellAt c i j)))
+    ∧ (nonNaN (cellAt c i j) = [] →
+        ((aggregatesN nd op c)[i]?.bind (·[j]?)) = some (if op = .count ∨ op = .sum then some 0 else nd)) := by
+  have h1 : ((aggregatesN nd op c)[i]?.bind (·[j]?))
+      = some (fillNaN nd (cellValue op (cellAt c i j))) := by
+    unfold aggregatesN cellAt
+    simp [hi, hj]
+  refine ⟨h1, fun hnil => ?_⟩
+  rw [h1]
+  cases op
+  · simp [cellValue, coCount_eq, hnil, fillNaN]
+  · simp [cellValue, coSum_eq, hnil, fillNaN]
+  · have := (coMin_spec (cellAt c i j)).1.2 hnil; simp [cellValue, this, fillNaN]
+  · have := (coMax_spec (cellAt c i j)).1.2 hnil; simp [cellValue, this, fillNaN]
+  · simp [cellValue, coAvg_spec, hnil, fillNaN]
+  · have := (coMedian_spec (cellAt c i j)).1.2 hnil; simp [cellValue, this, fillNaN]
+
+/-! ### the raster object as a state machine: sequences of calls on ONE `Raster`
+
+`run floor s cmds` is the model of a sequence of calls (`addAFMap`, `addCollectionToRaster`, `computeAggregates`,
+`setNoDataValue`), each one caught, on the raster in state `s`; `s.noData` is the raster's own no-data value (the constructor's
+`novalue`, then whatever `setNoDataValue` put there; `none` = Python's `None`), which — since the `fix:` commit 279f7b2 — is what
+`computeAggregates` writes. -/
+
+/-- No call changes the grid geometry: after ANY sequence of calls (failing ones included) the geometry is the one
+`Raster.__init__` built. -/
+theorem session_geometry (floor : α → Int) (s : RState α) (cmds : List (Cmd α)) :
+    (run floor s cmds).1.g = s.g ∧ (run floor s cmds).2.length = cmds.length :=
+  ⟨run_g floor cmds s, run_length floor cmds s⟩
+
+/-- `addCollectionToRaster` REPLACES the values, it does not accumulate. On a raster in ANY state `s` (whatever values an
+earlier collection left, whatever the bands hold) with a well-formed grid, for a collection whose observations lie in the
+extent and whose tracks have every feature the bands name: no exception; geometry, bands and no-data value are untouched;
+the values are kept for exactly the features of the bands, and the cell (line `i`, column `j`) of feature `af` holds exactly
+the values of `af` of the observations of THIS collection that `getCell` locates there, in track order. -/
+theorem add_collection_spec (s : RState α) (hg : WF s.g) (afo : List String) (T : List (Trk α))
+    (hperm : afo.isPerm (afsOf s.bands) = true)
+    (hfeat : ∀ t ∈ T, ∀ af ∈ afo, (featVals t af).isSome = true) (hin : ∀ t ∈ T, InExtent s.g t) :
+    ∃ V : Vals α, addColl Int.floor s afo T = ({ s with values := some V }, none)
+      ∧ ∀ af, (af ∉ afo → V.lookup af = none)
+        ∧ (af ∈ afo → ∃ c, V.lookup af = some c ∧ Rect c s.g.nrow.toNat s.g.ncol.toNat
+            ∧ ∀ i j, cellAt c i j = located (fun o : α × α × Option α => getCell Int.floor s.g o.1 o.2.1) (fun o => o.2.2) j i
+                (T.flatMap (fun t => obsOf t af))) :=
+  ⟨valsOf s.g afo T, addColl_ok s hg afo T hperm hfeat hin, fun af => valsOf_spec s.g hg afo T hfeat hin af⟩
+
+/-- Conservation on a raster with a history: after `addCollectionToRaster` (hypotheses of `add_collection_spec`), for every
+feature of the bands the sizes of the cells add up to the number of observations of THIS collection (each observation is
+in exactly one cell, nothing of an earlier collection is counted), and any per-value weight is conserved — with the
+weight "is not NaN": the entries of a `co_count` band add up to the number of non-NaN values. -/
+theorem add_collection_conservation (s : RState α) (hg : WF s.g) (afo : List String) (T : List (Trk α))
+    (hperm : afo.isPerm (afsOf s.bands) = true)
+    (hfeat : ∀ t ∈ T, ∀ af ∈ afo, (featVals t af).isSome = true) (hin : ∀ t ∈ T, InExtent s.g t)
+    (af : String) (haf : af ∈ afo) :
+    ∃ (V : Vals α) (c : Cells (Option α)), addColl Int.floor s afo T = ({ s with values := some V }, none) ∧ V.lookup af = some c
+      ∧ (∑ i ∈ Finset.range s.g.nrow.toNat, ∑ j ∈ Finset.range s.g.ncol.toNat, (cellAt c i j).length)
+          = (T.flatMap (fun t => obsOf t af)).length
+      ∧ ∀ w : Option α → ℕ, (∑ i ∈ Finset.range s.g.nrow.toNat, ∑ j ∈ Finset.range s.g.ncol.toNat, ((cellAt c i j).map w).sum)
+          = ((T.flatMap (fun t => obsOf t af)).map (fun o => w o.2.2)).sum := by
+  obtain ⟨V, hV, hspec⟩ := add_collection_spec s hg afo T hperm hfeat hin
+  obtain ⟨c, hl, _, hc⟩ := (hspec af).2 haf
+  have hrange : ∀ o ∈ T.flatMap (fun t => obsOf t af), ∃ col line : Int, getCell Int.floor s.g o.1 o.2.1 = some (col, line)
+      ∧ 0 ≤ col ∧ col < (s.g.ncol.toNat : ℤ) ∧ 0 ≤ line ∧ line < (s.g.nrow.toNat : ℤ) := by
+    intro o ho
+    obtain ⟨t, ht, hot⟩ := List.mem_flatMap.1 ho
+    have hp := hin t ht _ (obsOf_mem t af o hot)
+    obtain ⟨cc, r, h, c0, c1, r0, r1, _⟩ := getCell_footprint s.g hg o.1 o.2.1 hp.1 hp.2
+    refine ⟨cc, r, h, c0, ?_, r0, ?_⟩
+    · rw [Int.toNat_of_nonneg hg.ncol_pos.le]; exact c1
+    · rw [Int.toNat_of_nonneg hg.nrow_pos.le]; exact r1
+  have hw := located_weight_sum (fun o : α × α × Option α => getCell Int.floor s.g o.1 o.2.1) (fun o => o.2.2)
+  refine ⟨V, c, hV, hl, ?_, ?_⟩
+  · have := hw (fun _ => 1) s.g.nrow.toNat s.g.ncol.toNat _ hrange
+    simp only [hc]
+    simpa using this
+  · intro w
+    simp only [hc]
+    exact hw w s.g.nrow.toNat s.g.ncol.toNat _ hrange
+
+/-- the observations handed to the scatter for a feature the track has (a value per position) are all its positions, in
+order: none is dropped -/
+theorem obs_cover (t : Trk α) (af : String) (vs : List (Option α)) (h : featVals t af = some vs) (hl : vs.length = t.pts.length) :
+    (obsOf t af).map (fun o => (o.1, o.2.1)) = t.pts := by
+  unfold obsOf
+  rw [h]
+  simp only [List.map_map]
+  have : ((fun o : α × α × Option α => (o.1, o.2.1)) ∘ fun pv : (α × α) × Option α => (pv.1.1, pv.1.2, pv.2)) = Prod.fst := by
+    funext pv; rfl
+  rw [this, List.map_fst_zip]
+  omega
+
+/-- a track lacking a feature the bands name: `AnalyticalFeatureError`, and — the dictionary having been replaced
+before the test — every cell of every feature is left empty: the earlier collection's values are gone -/
+theorem add_collection_missing_feature (floor : α → Int) (s : RState α) (afo : List String) (T : List (Trk α))
+    (hperm : afo.isPerm (afsOf s.bands) = true)
+    (t : Trk α) (ht : t ∈ T) (af : String) (haf : af ∈ afo) (hmiss : featVals t af = none) :
+    addColl floor s afo T
+      = ({ s with values := some (afo.map (fun a => (a, emptyCells s.g.nrow.toNat s.g.ncol.toNat))) }, some .afError) := by
+  unfold addColl
+  have h1 : (!(afo.isPerm (afsOf s.bands))) = false := by rw [hperm]; rfl
+  have h2 : (T.any (fun t => afo.any (fun af => (featVals t af).isNone))) = true := by
+    rw [List.any_eq_true]
+    refine ⟨t, ht, ?_⟩
+    rw [List.any_eq_true]
+    exact ⟨af, haf, by rw [hmiss]; rfl⟩
+  rw [h1, h2]
+  simp
+
+/-- an observation outside the extent (every track having every feature, at least one band): `getCell` returns `None`,
+the unpacking raises `TypeError`; bands and geometry are untouched (the values scattered before it stay, see the model) -/
+theorem add_collection_outside (s : RState α) (hg : WF s.g) (afo : List String) (T : List (Trk α))
+    (hperm : afo.isPerm (afsOf s.bands) = true) (hne : afo ≠ [])
+    (hfeat : ∀ t ∈ T, ∀ af ∈ afo, HasFeat t af) (hout : ∃ t ∈ T, ∃ p ∈ t.pts, ¬ Inside s.g p.1 p.2) :
+    (addColl Int.floor s afo T).2 = some .type ∧ (addColl Int.floor s afo T).1.bands = s.bands
+      ∧ (addColl Int.floor s afo T).1.g = s.g := by
+  refine ⟨?_, (addColl_g _ s afo T).2, (addColl_g _ s afo T).1⟩
+  unfold addColl
+  have h1 : (!(afo.isPerm (afsOf s.bands))) = false := by rw [hperm]; rfl
+  have h2 : (T.any (fun t => afo.any (fun af => (featVals t af).isNone))) = false := by
+    rw [List.any_eq_false]
+    intro t ht
+    rw [Bool.not_eq_true, List.any_eq_false]
+    intro af haf
+    obtain ⟨vs, hvs, _⟩ := hfeat t ht af haf
+    rw [hvs]; simp
+  rw [h1, h2]
+  simp only [Bool.false_eq_true, ↓reduceIte]
+  apply addTracks_outside s.g hg T _ (fun e => hne (List.map_eq_nil_iff.1 e)) ?_ hout
+  intro e he
+  obtain ⟨af, haf, rfl⟩ := List.mem_map.1 he
+  exact ⟨rect_empty _ _, fun t ht => hfeat t ht af haf⟩
+
+/-- The invariant over operation sequences. Take ANY sequence of calls `pre` on a new raster (bands added, other
+collections scattered and aggregated, calls that raised — anything), then `addCollectionToRaster` of a collection `T` inside
+the extent whose tracks have every feature of the bands, then any calls `post` other than `addCollectionToRaster` (bands
+added later, `setNoDataValue`, further `computeAggregates`), then `computeAggregates`, every band being named
+`<feature>#<operator>` with a feature scattered by that `addCollectionToRaster` and one of the six operators. Then neither that
+`addCollectionToRaster` nor the last `computeAggregates` raises, the geometry is still the constructor's, the bands are those
+present before the last call, and EVERY band — whatever it held before: nothing, an explicit grid, the aggregates of an
+earlier collection — holds, in (line `i`, column `j`), its operator applied to exactly the values of its feature of the
+observations of `T` that `getCell` locates in that cell, a cell without a non-NaN value holding the raster's OWN no-data value as it
+is at that call — the constructor's `novalue` or what `setNoDataValue` put there since, `None` included (`aggregatesN_entry`). With T1 (`cell_footprint`), T2 (`conservation`) and T3
+(`aggregate_spec`) this is the property for the collection LAST scattered, after any history. -/
+theorem session_spec (g : Grid α) (hg : WF g) (nd : Option α) (pre post : List (Cmd α)) (afo : List String) (T : List (Trk α))
+    (hpost : ∀ c ∈ post, c.isAdd = false)
+    (hperm : afo.isPerm (afsOf (run Int.floor (initState g nd) pre).1.bands) = true)
+    (hfeat : ∀ t ∈ T, ∀ af ∈ afo, (featVals t af).isSome = true) (hin : ∀ t ∈ T, InExtent g t)
+    (hbands : ∀ b ∈ (run Int.floor (initState g nd) (pre ++ [.add afo T] ++ post)).1.bands,
+        ∃ af opn rest, b.name = af :: opn :: rest ∧ af ∈ afo ∧ (opOf opn).isSome = true) :
+    ∃ (s3 : RState α) (outs : List (Option Err)),
+      run Int.floor (initState g nd) (pre ++ [.add afo T] ++ post ++ [.compute]) = (s3, outs)
+      ∧ outs[pre.length]? = some none ∧ outs.getLast? = some none
+      ∧ s3.g = g ∧ s3.noData = (run Int.floor (initState g nd) (pre ++ [.add afo T] ++ post)).1.noData
+      ∧ s3.bands.map (·.name) = (run Int.floor (initState g nd) (pre ++ [.add afo T] ++ post)).1.bands.map (·.name)
+      ∧ ∀ b ∈ s3.bands, ∀ af opn rest op, b.name = af :: opn :: rest → opOf opn = some op →
+          ∃ c : Cells (Option α), Rect c g.nrow.toNat g.ncol.toNat
+            ∧ (∀ i j, cellAt c i j = located (fun o : α × α × Option α => getCell Int.floor g o.1 o.2.1) (fun o => o.2.2) j i
+                (T.flatMap (fun t => obsOf t af)))
+            ∧ b.grid = some (aggregatesN s3.noData op c) := by
+  have hthrough := run_through_add g hg nd pre post afo T hperm hfeat hin
+  rw [hthrough] at hbands
+  have hcore := session_core g hg nd pre post afo T hpost hperm hfeat hin hbands
+  refine ⟨_, _, hcore, ?_, ?_, ?_, ?_, ?_, ?_⟩
+  · have hl : (run Int.floor (initState g nd) pre).2.length = pre.length := run_length _ _ _
+    simp only [List.append_assoc]
+    rw [List.getElem?_append_right (by omega), hl]
+    simp
+  · rw [List.getLast?_concat]
+  · simp only
+    rw [run_g]
+    exact run_g _ _ _
+  · rw [hthrough]
+  · rw [hthrough]
+    simp [computeBand_name]
+  · intro b hb af opn rest op hn hop
+    simp only [List.mem_map] at hb
+    obtain ⟨b0, hb0, rfl⟩ := hb
+    rw [computeBand_name] at hn
+    obtain ⟨af', opn', rest', hn', haf', _⟩ := hbands b0 hb0
+    rw [hn'] at hn
+    simp only [List.cons.injEq] at hn
+    obtain ⟨rfl, rfl, rfl⟩ := hn
+    obtain ⟨c, hl, hR, hc⟩ := (valsOf_spec g hg afo T hfeat hin af').2 haf'
+    refine ⟨c, hR, hc, ?_⟩
+    rw [computeBand_ok _ _ b0 af' opn' rest' op c hn' hl hop]
+
+/-- One-shot corollary: `summarize`. For EVERY collection of non-empty tracks — a north-south or east-west line of
+observations and a single observation included, whose extent has no width or no height —, positive resolution, margin ≥ 0,
+a non-empty list of (feature, operator) pairs without repetition, operators among the six, every track having every
+feature: `summarize` does not fail and does not return 0; it builds a well-formed grid (at least one column and one row)
+covering every observation, with one band per pair, in call order; and every band holds, in (line `i`, column `j`), its
+operator applied to exactly the values of its feature of the observations that `getCell` locates in that cell (so that T1, T2,
+T3 apply to the returned grids). A cell without a non-NaN value holds `NO_DATA_VALUE` (`wr`), the no-data value of the raster
+`summarize` builds, except for count and sum (0). It is `session_spec` for the call sequence `addAFMap … addAFMap, addCollectionToRaster,
+computeAggregates` on a new raster. Before bdf8515 this needed two different x and two different y among the observations. -/
+theorem summarize_spec (tracks : List (Trk α)) (afs ops afo : List String) (rx ry margin wr : α)
+    (hrx : 0 < rx) (hry : 0 < ry) (hm : 0 ≤ margin)
+    (hne : tracks ≠ []) (hpts : ∀ t ∈ tracks, t.pts ≠ [])
+    (hafs : afs ≠ []) (hlen : afs.length = ops.length)
+    (hdist : ((afs.zip ops).map (fun p => [p.1, p.2])).Nodup)
+    (hops : ∀ o ∈ ops, (opOf o).isSome = true)
+    (hperm : afo.isPerm afs.eraseDups = true)
+    (hfeat : ∀ t ∈ tracks, ∀ af ∈ afs, (featVals t af).isSome = true) :
+    ∃ s : RState α, summarizeS Int.floor Int.ceil wr tracks afs ops rx ry margin afo = .ok s
+      ∧ WF s.g ∧ (∀ t ∈ tracks, InExtent s.g t) ∧ s.noData = some wr
+      ∧ s.bands.map (·.name) = (afs.zip ops).map (fun p => [p.1, p.2])
+      ∧ ∀ b ∈ s.bands, ∀ af opn rest op, b.name = af :: opn :: rest → opOf opn = some op →
+          ∃ c : Cells (Option α), Rect c s.g.nrow.toNat s.g.ncol.toNat
+            ∧ (∀ i j, cellAt c i j = located (fun o : α × α × Option α => getCell Int.floor s.g o.1 o.2.1) (fun o => o.2.2) j i
+                (tracks.flatMap (fun t => obsOf t af)))
+            ∧ b.grid = some (aggregatesN (some wr) op c) := by
+  -- the bounding box
+  obtain ⟨t0, ht0⟩ := List.exists_mem_of_ne_nil tracks hne
+  obtain ⟨p0, hp0⟩ := List.exists_mem_of_ne_nil t0.pts (hpts t0 ht0)
+  have mx : ∀ t ∈ tracks, ∀ p ∈ t.pts, p.1 ∈ tracks.flatMap (fun t => t.pts.map (·.1)) := fun t ht p hp =>
+    List.mem_flatMap.2 ⟨t, ht, List.mem_map.2 ⟨p, hp, rfl⟩⟩
+  have my : ∀ t ∈ tracks, ∀ p ∈ t.pts, p.2 ∈ tracks.flatMap (fun t => t.pts.map (·.2)) := fun t ht p hp =>
+    List.mem_flatMap.2 ⟨t, ht, List.mem_map.2 ⟨p, hp, rfl⟩⟩
+  have hxs : tracks.flatMap (fun t => t.pts.map (·.1)) ≠ [] := List.ne_nil_of_mem (mx t0 ht0 p0 hp0)
+  have hys : tracks.flatMap (fun t => t.pts.map (·.2)) ≠ [] := List.ne_nil_of_mem (my t0 ht0 p0 hp0)
   obtain ⟨bx0, e1, mbx0, hbx0⟩ := minOf_spec _ hxs
   obtain ⟨bx1, e2, _, hbx1⟩ := maxOf_spec _ hxs
   obtain ⟨by0, e3, mby0, hby0⟩ := minOf_spec _ hys
   obtain ⟨by1, e4, _, hby1⟩ := maxOf_spec _ hys
-  have mx : ∀ o ∈ obs, o.1 ∈ obs.map (fun o => o.1) := fun o ho => List.mem_map.2 ⟨o, ho, rfl⟩
-  have my : ∀ o ∈ obs, o.2.1 ∈ obs.map (fun o => o.2.1) := fun o ho => List.mem_map.2 ⟨o, ho, rfl⟩
-  have hx : bx0 ≤ bx1 := hbx1 _ mbx0
-  have hy : by0 ≤ by1 := hby1 _ mby0
-  obtain ⟨hwf, hc1, hc2, hc3, hc4⟩ := mkGrid_wf bx0 bx1 by0 by1 rx ry margin hx hy hrx hry hm
-  have hin : ∀ o ∈ obs, ((mkGrid Int.ceil bx0 bx1 by0 by1 rx ry margin).xmin ≤ o.1
-        ∧ o.1 ≤ (mkGrid Int.ceil bx0 bx1 by0 by1 rx ry margin).xmax)
-      ∧ ((mkGrid Int.ceil bx0 bx1 by0 by1 rx ry margin).ymin ≤ o.2.1
-        ∧ o.2.1 ≤ (mkGrid Int.ceil bx0 bx1 by0 by1 rx ry margin).ymax) := fun o ho =>
-    ⟨⟨le_trans hc1 (hbx0 _ (mx o ho)), le_trans (hbx1 _ (mx o ho)) hc2⟩,
-     ⟨le_trans hc3 (hby0 _ (my o ho)), le_trans (hby1 _ (my o ho)) hc4⟩⟩
-  obtain ⟨cells, hsc, hR, hcells, _, _⟩ := conservation _ hwf obs hin
-  have hnrow : ¬ ((mkGrid Int.ceil bx0 bx1 by0 by1 rx ry margin).nrow ≤ 0) := by
-    have : 0 < (mkGrid Int.ceil bx0 bx1 by0 by1 rx ry margin).nrow := hwf.nrow_pos
-    omega
-  refine ⟨_, cells, ?_, hwf, hin, hR, hcells⟩
-  unfold summarize
-  simp only [e1, e2, e3, e4, hnrow, ↓reduceIte, hsc]
+  obtain ⟨hwf, hc1, hc2, hc3, hc4⟩ := mkGrid_wf bx0 bx1 by0 by1 rx ry margin (hbx1 _ mbx0) (hby1 _ mby0) hrx hry hm
+  generalize hgdef : mkGrid Int.ceil bx0 bx1 by0 by1 rx ry margin = g at hwf hc1 hc2 hc3 hc4
+  have hin : ∀ t ∈ tracks, InExtent g t := fun t ht p hp =>
+    ⟨⟨le_trans hc1 (hbx0 _ (mx t ht p hp)), le_trans (hbx1 _ (mx t ht p hp)) hc2⟩,
+     ⟨le_trans hc3 (hby0 _ (my t ht p hp)), le_trans (hby1 _ (my t ht p hp)) hc4⟩⟩
+  -- the bands
+  have hnames : ∀ n ∈ (afs.zip ops).map (fun p => [p.1, p.2]), n ≠ [""] ∧ ∀ b ∈ (initState g (some wr)).bands, b.name ≠ n := by
+    intro n hn
+    obtain ⟨p, _, rfl⟩ := List.mem_map.1 hn
+    exact ⟨by simp, fun b hb => by simp [initState] at hb⟩
+  have hpre := run_bands Int.floor ((afs.zip ops).map (fun p => [p.1, p.2])) (initState g (some wr)) hdist hnames
+  rw [List.map_map] at hpre
+  have hprebands : (run Int.floor (initState g (some wr)) ((afs.zip ops).map (fun p => Cmd.band [p.1, p.2] none))).1.bands
+      = (afs.zip ops).map (fun p => (⟨[p.1, p.2], none⟩ : Band α)) := by
+    have : ((fun n => Cmd.band n none) ∘ fun p : String × String => [p.1, p.2]) = fun p : String × String => (Cmd.band [p.1, p.2] none : Cmd α) := rfl
+    rw [this] at hpre
+    rw [hpre]; simp [initState]
+  have hafsOf : afsOf ((afs.zip ops).map (fun p => (⟨[p.1, p.2], none⟩ : Band α))) = afs.eraseDups := by
+    unfold afsOf
+    rw [List.map_map]
+    have : ((fun b : Band α => b.name.headD "") ∘ fun p : String × String => (⟨[p.1, p.2], none⟩ : Band α)) = Prod.fst := by
+      funext p; rfl
+    rw [this, List.map_fst_zip (by omega)]
+  have hmem : ∀ af, af ∈ afo ↔ af ∈ afs := by
+    intro af
+    rw [(List.isPerm_iff.1 hperm).mem_iff, List.mem_eraseDups]
+  have hfeat' : ∀ t ∈ tracks, ∀ af ∈ afo, (featVals t af).isSome = true := fun t ht af haf => hfeat t ht af ((hmem af).1 haf)
+  have hperm' : afo.isPerm (afsOf (run Int.floor (initState g (some wr)) ((afs.zip ops).map (fun p => Cmd.band [p.1, p.2] none))).1.bands) = true := by
+    rw [hprebands, hafsOf]; exact hperm
+  have hthrough := run_through_add g hwf (some wr) ((afs.zip ops).map (fun p => Cmd.band [p.1, p.2] none)) [] afo tracks hperm' hfeat' hin
+  have hb2 : (run Int.floor (initState g (some wr)) ((afs.zip ops).map (fun p => Cmd.band [p.1, p.2] none) ++ [.add afo tracks] ++ [])).1.bands
+      = (afs.zip ops).map (fun p => (⟨[p.1, p.2], none⟩ : Band α)) := by
+    rw [hthrough, run_nil]
+    exact hprebands
+  have hbands : ∀ b ∈ (run Int.floor (initState g (some wr)) ((afs.zip ops).map (fun p => Cmd.band [p.1, p.2] none) ++ [.add afo tracks] ++ [])).1.bands,
+      ∃ af opn rest, b.name = af :: opn :: rest ∧ af ∈ afo ∧ (opOf opn).isSome = true := by
+    rw [hb2]
+    intro b hb
+    obtain ⟨p, hp, rfl⟩ := List.mem_map.1 hb
+    exact ⟨p.1, p.2, [], rfl, (hmem p.1).2 (List.of_mem_zip hp).1, hops p.2 (List.of_mem_zip hp).2⟩
+  obtain ⟨s3, outs, hrun, _, _, hg3, hnd3, hnames3, hspec⟩ := session_spec g hwf (some wr)
+    ((afs.zip ops).map (fun p => Cmd.band [p.1, p.2] none)) [] afo tracks (by simp) hperm' hfeat' hin hbands
+  -- the outcomes: no call raised
+  have hcore := session_core g hwf (some wr) ((afs.zip ops).map (fun p => Cmd.band [p.1, p.2] none)) [] afo tracks (by simp) hperm' hfeat' hin
+    (by rw [← hthrough]; exact hbands)
+  have houts : firstErr outs = none := by
+    have : outs = (run Int.floor (initState g (some wr)) ((afs.zip ops).map (fun p => Cmd.band [p.1, p.2] none))).2 ++ [none] ++ [] ++ [none] := by
+      have := hcore.symm.trans hrun
+      exact (Prod.mk.inj this).2.symm
+    rw [this]
+    have hpre2 : (run Int.floor (initState g (some wr)) ((afs.zip ops).map (fun p => Cmd.band [p.1, p.2] none))).2
+        = ((afs.zip ops).map (fun p => [p.1, p.2])).map (fun _ => (none : Option Err)) := by
+      have h2 : ((fun n => Cmd.band n none) ∘ fun p : String × String => [p.1, p.2]) = fun p : String × String => (Cmd.band [p.1, p.2] none : Cmd α) := rfl
+      rw [h2] at hpre
+      rw [hpre]
+    rw [hpre2]
+    generalize ((afs.zip ops).map (fun p => [p.1, p.2])) = L
+    induction L with
+    | nil => rfl
+    | cons _ _ ih => simpa [firstErr] using ih
+  have hnd : s3.noData = some wr := by
+    rw [hnd3, hthrough, run_nil]
+    have h2 : ((fun n => Cmd.band n none) ∘ fun p : String × String => [p.1, p.2]) = fun p : String × String => (Cmd.band [p.1, p.2] none : Cmd α) := rfl
+    rw [h2] at hpre
+    simp only [afterAdd, hpre]
+    rfl
+  refine ⟨s3, ?_, by rw [hg3]; exact hwf, by rw [hg3]; exact hin, hnd, ?_, ?_⟩
+  · unfold summarizeS
+    have h0 : ¬ afs.length = 0 := fun h => hafs (List.eq_nil_of_length_eq_zero h)
+    have h1 : ¬ afs.length ≠ ops.length := fun h => h hlen
+    have h2 : (tracks.isEmpty || tracks.any (fun t => t.pts.isEmpty)) = false := by
+      rw [Bool.or_eq_false_iff]
+      refine ⟨by simpa using hne, ?_⟩
+      rw [List.any_eq_false]
+      intro t ht
+      simpa using hpts t ht
+    simp only [h0, h1, h2, ↓reduceIte, Bool.false_eq_true, e1, e2, e3, e4, hgdef]
+    have hcmds : (afs.zip ops).map (fun p => Cmd.band [p.1, p.2] none) ++ [Cmd.add afo tracks, Cmd.compute]
+        = (afs.zip ops).map (fun p => (Cmd.band [p.1, p.2] none : Cmd α)) ++ [.add afo tracks] ++ [] ++ [.compute] := by simp
+    rw [hcmds, hrun]
+    simp only [houts]
+  · rw [hnames3, hb2]; simp
+  · rw [hg3, ← hnd]; exact hspec
 
 /-- the `floor` / `ceil` the driver uses at `Rat` (core `Rat.floor`, `Rat.ceil`) are the `Int.floor` / `Int.ceil`
 of the theorems, so on exact (dyadic) inputs the theorems speak about the very values the driver computes -/
@@ -188,14 +464,64 @@ example : WF lineGrid := by
 example : (mkGrid Rat.ceil 1 1 0 2 1 1 0).ncol = 1 ∧ (mkGrid Rat.ceil 1 1 0 2 1 1 0).nrow = 2
     ∧ getCell Rat.floor lineGrid 1 0 = some (0, 1) ∧ getCell Rat.floor lineGrid 1 1 = some (0, 0)
     ∧ getCell Rat.floor lineGrid 1 2 = some (0, 0) := by decide +kernel
-/-- `summarize` of the inputs of the defect repaired by bdf8515: a north-south line (count grid `[[2],[1]]`), an
+/-- `summarize` of the inputs of the defect repaired by bdf8515: a north-south line (count grid `[[2],[1]]`, max `[[5],[1]]`), an
 east-west line (`[[1, 2]]`), a single observation (`[[1]]`) — none raises -/
+def oneTrack (pts : List (ℚ × ℚ)) (vs : List (Option ℚ)) : List (Trk ℚ) := [{ uid := 1, pts := pts, feats := [("v", vs)] }]
+def bandGrids : SumRes ℚ → List (Option (List (List (Option ℚ))))
+  | .ok s => s.bands.map (·.grid)
+  | _ => []
 example :
-    (summarize Rat.floor Rat.ceil (-99999 : ℚ) [(1, 0, some 1), (1, 1, some 1), (1, 2, none), (1, 2, some 5)] 1 1 0 [.count, .max]).map (·.2)
-      = some [[[2], [1]], [[5], [1]]]
-    ∧ (summarize Rat.floor Rat.ceil (-99999 : ℚ) [(0, 2, some 1), (1, 2, some 1), (2, 2, some 1)] 1 1 0 [.count]).map (·.2)
-      = some [[[1, 2]]]
-    ∧ (summarize Rat.floor Rat.ceil (-99999 : ℚ) [(0, 2, some 1)] 1 1 (1/4) [.count]).map (·.2) = some [[[1]]] := by
+    bandGrids (summarizeS Rat.floor Rat.ceil (-99999 : ℚ) (oneTrack [(1, 0), (1, 1), (1, 2), (1, 2)] [some 1, some 1, none, some 5])
+        ["v", "v"] ["co_count", "co_max"] 1 1 0 ["v"]) = [some [[some 2], [some 1]], some [[some 5], [some 1]]]
+    ∧ bandGrids (summarizeS Rat.floor Rat.ceil (-99999 : ℚ) (oneTrack [(0, 2), (1, 2), (2, 2)] [some 1, some 1, some 1])
+        ["v"] ["co_count"] 1 1 0 ["v"]) = [some [[some 1, some 2]]]
+    ∧ bandGrids (summarizeS Rat.floor Rat.ceil (-99999 : ℚ) (oneTrack [(0, 2)] [some 1]) ["v"] ["co_count"] 1 1 (1/4) ["v"])
+        = [some [[some 1]]] := by
+  decide +kernel
+/-- a session on ONE raster (the 2 × 2 grid above): a band, a first collection, `computeAggregates`, a second collection,
+`computeAggregates` again, a band added later, `computeAggregates`: no call raises; after the second pass the count band
+describes the second collection alone (`[[0,0],[0,1]]`, not `[[0,1],[1,1]]`), and the band added later is computed too -/
+def demoT0 : List (Trk ℚ) := [{ uid := 1, pts := [(0, 0), (1/2, 1/2), (2, 2)], feats := [("v", [some 1, none, some 3])] }]
+def demoT1 : List (Trk ℚ) := [{ uid := 7, pts := [(3/2, 1/2)], feats := [("v", [some 4])] }]
+example :
+    (run Rat.floor (initState demoGrid (some (-99999 : ℚ)))
+        [.band ["v", "co_count"] none, .add ["v"] demoT0, .compute]).1.bands.map (·.grid) = [some [[some 0, some 1], [some 1, some 0]]]
+    ∧ (run Rat.floor (initState demoGrid (some (-99999 : ℚ)))
+        [.band ["v", "co_count"] none, .add ["v"] demoT0, .compute, .add ["v"] demoT1, .compute,
+         .band ["v", "co_max"] none, .compute]).1.bands.map (·.grid)
+        = [some [[some 0, some 0], [some 0, some 1]], some [[some (-99999), some (-99999)], [some (-99999), some 4]]]
+    ∧ (run Rat.floor (initState demoGrid (some (-99999 : ℚ)))
+        [.band ["v", "co_count"] none, .add ["v"] demoT0, .compute, .add ["v"] demoT1, .compute,
+         .band ["v", "co_max"] none, .compute]).2 = [none, none, none, none, none, none, none] := by
+  decide +kernel
+/-- the raster's own no-data value (the input of the defect repaired by 279f7b2): built with `novalue = -1`, the cells without value
+of a `co_min` band hold -1; after `setNoDataValue(7)` between `addCollectionToRaster` and `computeAggregates`, 7; after
+`setNoDataValue(None)`, `None`; the count band holds 0 there in every case -/
+example :
+    (run Rat.floor (initState demoGrid (some (-1 : ℚ)))
+        [.band ["v", "co_min"] none, .add ["v"] demoT1, .compute]).1.bands.map (·.grid)
+      = [some [[some (-1), some (-1)], [some (-1), some 4]]]
+    ∧ (run Rat.floor (initState demoGrid (some (-1 : ℚ)))
+        [.band ["v", "co_min"] none, .add ["v"] demoT1, .setNoData (some 7), .compute]).1.bands.map (·.grid)
+      = [some [[some 7, some 7], [some 7, some 4]]]
+    ∧ (run Rat.floor (initState demoGrid (some (-1 : ℚ)))
+        [.band ["v", "co_min"] none, .band ["v", "co_count"] none, .add ["v"] demoT1, .setNoData none, .compute]).1.bands.map (·.grid)
+      = [some [[none, none], [none, some 4]], some [[some 0, some 0], [some 0, some 1]]] := by
+  decide +kernel
+/-- calls that raise, in the order the Python meets them: `computeAggregates` before any collection (`AttributeError`), a name
+already taken (`WrongArgumentError`), a band without `#` (`IndexError`), an observation outside the grid (`TypeError`), a band
+added after the collection for a feature it did not scatter (`KeyError`), an unknown operator (`NameError`) -/
+example :
+    (run Rat.floor (initState demoGrid (some (-99999 : ℚ)))
+        [.band ["v", "co_count"] none, .compute, .band ["v", "co_count"] none,
+         .add ["v"] [{ uid := 1, pts := [(3, 3)], feats := [("v", [some 1])] }],
+         .add ["v"] demoT1, .band ["w", "co_sum"] none, .compute]).2
+      = [none, some .attr, some .wrongArg, some .type, none, none, some .key]
+    ∧ (run Rat.floor (initState demoGrid (some (-99999 : ℚ)))
+        [.band ["v"] none, .add ["v"] demoT1, .compute, .add ["v"] [{ uid := 1, pts := [(1, 1)], feats := [] }]]).2
+      = [none, none, some .index, some .afError]
+    ∧ (run Rat.floor (initState demoGrid (some (-99999 : ℚ)))
+        [.band ["v", "undefined_op"] none, .add ["v"] demoT1, .compute]).2 = [none, none, some .name] := by
   decide +kernel
 /-- the operators on a cell holding NaN, 1, 2 (the input of the defect repaired by 90d9915 / 4b05560) -/
 example : coMin [none, some (1 : ℚ), some 2] = some 1 ∧ coMax [none, some (1 : ℚ), some 2] = some 2
